@@ -158,3 +158,40 @@ Proof.
     exfalso. unfold fl_iter in E. cbn [fl_state fline0] in E. unfold fl_init in E.
     replace (length rest <? length go_sipVerSP + 6)%nat with true in E by (symmetry; apply Nat.ltb_lt; exact Hl). discriminate E.
 Qed.
+
+(* ---- order and adjacency of the first-line fields (C05) -------------------------------------------------------------------------- *)
+Corollary req_fields_in_order rest i o s : req_shape rest i o s ->
+  po (fl_method s) = i /\ 0 < pl (fl_method s) /\ pf_end (fl_method s) + 1 = po (fl_uri s) /\ 0 < pl (fl_uri s) /\
+  pf_end (fl_uri s) + 1 = po (fl_version s) /\ 0 < pl (fl_version s) /\ pf_end (fl_version s) < o /\ o <= pf_end (fl_version s) + 2.
+Proof.
+  intros (m & u & v & crl & tail & _ & (T1 & N1 & T2 & N2 & T3 & N3) & Heol & Em & Eu & Ev & _ & Eo & _).
+  rewrite Em, Eu, Ev, Eo. unfold pf_end. cbn [po pl].
+  assert (crl = 1 \/ crl = 2)%nat as Hc.
+  { unfold eol_at, skipCRLF in Heol. destruct tail as [|a [|b t]]; try discriminate; [destruct (is_crlf a); discriminate|].
+    destruct (is_cr a); [destruct (is_lf b); injection Heol as <-; auto|]. destruct (is_lf a); [injection Heol as <-; auto|discriminate]. }
+  destruct m, u, v; try congruence; cbn [length]; unfold nnat; repeat split; lia.
+Qed.
+Corollary rpl_fields_in_order rest i o s : rpl_shape rest i o s ->
+  po (fl_version s) = i /\ pf_end (fl_version s) + 1 = po (fl_statuscode s) /\ pl (fl_statuscode s) = 3 /\
+  pf_end (fl_statuscode s) + 1 = po (fl_reason s) /\ pf_end (fl_reason s) < o /\ o <= pf_end (fl_reason s) + 2.
+Proof.
+  intros (ver & a & b & c & reason & crl & tail & _ & _ & _ & _ & _ & Heol & Ev & Es & _ & Er & Eo & _).
+  rewrite Ev, Es, Er, Eo. unfold pf_end. cbn [po pl].
+  assert (crl = 1 \/ crl = 2)%nat as Hc.
+  { unfold eol_at, skipCRLF in Heol. destruct tail as [|a0 [|b0 t]]; try discriminate; [destruct (is_crlf a0); discriminate|].
+    destruct (is_cr a0); [destruct (is_lf b0); injection Heol as <-; auto|]. destruct (is_lf a0); [injection Heol as <-; auto|discriminate]. }
+  change (nnat (length go_sipVerSP)) with 8. unfold nnat. repeat split; lia.
+Qed.
+
+Theorem first_line_fields_in_order (p rest : list byte) o s :
+  parse_fline (p ++ rest) (nnat (length p)) fline0 = Done o EOk s ->
+  let i := nnat (length p) in
+  if prefix_nocase go_sipVerSP rest
+  then po (fl_version s) = i /\ pf_end (fl_version s) + 1 = po (fl_statuscode s) /\ pl (fl_statuscode s) = 3 /\
+       pf_end (fl_statuscode s) + 1 = po (fl_reason s) /\ pf_end (fl_reason s) < o /\ o <= pf_end (fl_reason s) + 2
+  else po (fl_method s) = i /\ 0 < pl (fl_method s) /\ pf_end (fl_method s) + 1 = po (fl_uri s) /\ 0 < pl (fl_uri s) /\
+       pf_end (fl_uri s) + 1 = po (fl_version s) /\ 0 < pl (fl_version s) /\ pf_end (fl_version s) < o /\ o <= pf_end (fl_version s) + 2.
+Proof.
+  intros H i. pose proof (first_line_converse p rest o s H) as C.
+  destruct (prefix_nocase go_sipVerSP rest); [exact (rpl_fields_in_order _ _ _ _ C)|exact (req_fields_in_order _ _ _ _ C)].
+Qed.
